@@ -43,3 +43,52 @@ Example C13_create_unfixed_refuted :
                              {| wdev := {| data := []; pos := 0 |}; wsched := sc |} in
   r = Ok tt /\ data (wdev w') = [1; 2; 3; 4] /\ data (wdev w') <> [7; 8; 3; 4].
 Proof. exact create_unfixed_refuted. Qed.
+
+(* update_file over two faulty devices (original: Read+Write+Seek; rebuilt: Write), code after fix 441bd12:
+   for every schedule of both devices, buffer capacity and chunking, Ok(b) means the devices hold exactly
+   what the fault-free update_file of Update.v computes (which C10 characterises), with the same b *)
+Theorem C13_update_file :
+  forall (payload : Type) (psize : payload -> N) (ser : payload -> list N)
+         (uclass : okind -> payload -> option N)
+         (read_blocks : list N -> res (blocklist payload * list N)),
+    (forall s bl rest, read_blocks s = Ok (bl, rest) -> exists m, s = m ++ rest) ->
+    forall (cap : nat) (ck : list N -> list (list N)) (edit : blocklist payload -> res (blocklist payload))
+           (rb : bool) (w1 w2 : world) (b : bool) (w1' w2' : world),
+      (0 < cap)%nat -> ck_ok ck -> honest (sr (wsched w1)) ->
+      (pos (wdev w1) <= length (data (wdev w1)))%nat ->
+      wdev w2 = {| data := []; pos := 0 |} ->
+      update_file_io payload psize ser uclass read_blocks true cap ck edit rb w1 w2 = (Ok b, w1', w2') ->
+      update_file payload psize ser uclass read_blocks edit (pos (wdev w1)) (data (wdev w1)) =
+        ({| orig := data (wdev w1'); rebuilt := if b then Some (data (wdev w2')) else None |}, Ok b).
+Proof. exact update_file_io_sound. Qed.
+
+(* never a panic: writer side (any stack, program, schedule) ... *)
+Theorem C13_no_panic_writer :
+  forall (st : stack) (p : list wop) (w : world), is_panic (fst (run_writer st p w)) = false.
+Proof. exact run_writer_no_panic. Qed.
+(* ... and update_file (unless the block reader or the callback panics) *)
+Theorem C13_no_panic_update :
+  forall (payload : Type) (psize : payload -> N) (ser : payload -> list N)
+         (uclass : okind -> payload -> option N)
+         (read_blocks : list N -> res (blocklist payload * list N)),
+    (forall p, lenN (ser p) = psize p) ->
+    forall (fixed : bool) (cap : nat) (ck : list N -> list (list N))
+           (edit : blocklist payload -> res (blocklist payload)) (rb : bool) (w1 w2 : world),
+      (forall s, is_panic (read_blocks s) = false) -> (forall bl, is_panic (edit bl) = false) ->
+      is_panic (fst (fst (update_file_io payload psize ser uclass read_blocks fixed cap ck edit rb w1 w2))) = false.
+Proof. exact update_file_io_no_panic. Qed.
+
+(* a read that fails (not Interrupted) ends both read loops with Err at that very call *)
+Theorem C13_read_errors_propagate :
+  (forall fuel cap need got w w1, (length got < need)%nat ->
+     dev_read cap w = (IErr false, w1) -> fill_until (S fuel) cap need got w = (Err EIo, w1)) /\
+  (forall fuel cap acc w w1,
+     dev_read cap w = (IErr false, w1) -> read_to_end (S fuel) cap acc w = (Err EIo, w1)).
+Proof. exact (conj fill_until_read_error read_to_end_read_error). Qed.
+
+(* the defect F-C13a as a theorem about the old in-place path (BufWriter dropped without checked flush) *)
+Example C13_update_inplace_unfixed_refuted :
+  let '(r, w1, _) := demo_io false all_writes_fail in
+  r = Ok false /\ data (wdev w1) = repeat 9 80 /\
+  let '(r0, w0, _) := demo_io false no_faults in r0 = Ok false /\ data (wdev w0) <> repeat 9 80.
+Proof. exact update_inplace_unfixed_refuted. Qed.
